@@ -31,3 +31,19 @@ def write_csep_csv(path, events, catalog_id=0, header=True, frac="auto"):
             w.writerow(["lon", "lat", "mag", "time_string", "depth", "catalog_id", "event_id"])
         for r in csep_csv_rows(events, catalog_id, frac):
             w.writerow(r)
+
+
+def write_catalog_forecast(path, catalogs, encoding, header=False, frac="auto"):
+    """catalogs: list (index = catalog id) of event lists; encoding[i] in {'placeholder','omit'} for empty catalogs
+    (the final id is always written). Rows: lon,lat,mag,time_string,depth,catalog_id,event_id; placeholder: ,,,,,id,"""
+    n = len(catalogs)
+    with open(path, "w", newline="") as f:
+        w = csv.writer(f, delimiter=",")
+        if header:
+            w.writerow(["lon", "lat", "mag", "time_string", "depth", "catalog_id", "event_id"])
+        for i, evs in enumerate(catalogs):
+            if evs:
+                for r in csep_csv_rows(evs, i, frac):
+                    w.writerow(r)
+            elif i == n - 1 or encoding[i] == "placeholder":
+                w.writerow(["", "", "", "", "", str(i), ""])
